@@ -141,7 +141,7 @@ H("c09_gate_raw", props=["C09", "C05"], fns=[(INJ, "will_execute_raw")], expects
 H("c09_gate_pair", props=["C09", "C05"], fns=[(INJ, "will_execute")], expects_panic=True, bounded=_B, **_MODS_INJ)
 H("c09_gate_async", props=["C09", "C05", "C14"], fns=[(INJ, "will_return_async")], expects_panic=True, bounded=_B, **_MODS_INJ)
 H("c09_gate_mixed", props=["C09", "C05"], fns=[(INJ, "will_execute_raw"), (INJ, "when_called_unchecked")], expects_panic=True, bounded=_B, covers=[], covers_unreachable=["COVER:not-refused"], **_MODS_INJ)
-H("c09_null", props=["C09"], fns=[(FPT, "new")], covers=[], covers_unreachable=["COVER:constructed-from-null"], expect_fail_desc="expect_failed", min_obligations=2, **_MODS_INJ)
+H("c09_null", props=["C09"], fns=[(FPT, "new")], covers=[], covers_unreachable=["COVER:constructed-from-null"], expect_fail_desc="expect_failed", or_hook=True, min_obligations=2, **_MODS_INJ)
 H("c07_reset", props=["C07"], fns=[(INJ, "will_execute")], covers=["COVER:end", "COVER:stale-count"], **_MODS_INJ)
 _INJ_FNS = [(INJ, "new", 1), (INJ, "prevent"), (INJ, "lock"), (INJ, "drop")]
 H("c04_injector_holds", props=["C04"], fns=_INJ_FNS + [(INJ, "will_execute_raw"), (INJ, "will_return_boolean")], min_obligations=8, **_MODS_INJ)
